@@ -312,3 +312,52 @@ Lemma double_claim_table :
 Proof. vm_compute. repeat split. Qed.
 Lemma double_claim_iff o t : double_claim_possible o t = negb (match o, t with ClaimCAS, ClaimCAS => true | _, _ => false end).
 Proof. destruct o, t; vm_compute; reflexivity. Qed.
+
+(* ------------------------------------------------ teardown drains everything, follow-ups included *)
+Lemma fsize_app a b : fsize (a ++ b) = (fsize a + fsize b)%nat.
+Proof. unfold fsize. induction a as [|x a IH]; simpl; [reflexivity|]. rewrite IH. lia. Qed.
+Lemma fids_app a b : fids (a ++ b) = fids a ++ fids b.
+Proof. unfold fids. apply flat_map_app. Qed.
+Lemma tsize_unfold id fs : tsize (Task id fs) = S (fsize fs).
+Proof. reflexivity. Qed.
+Lemma tids_unfold id fs : tids (Task id fs) = id :: fids fs.
+Proof. reflexivity. Qed.
+
+Lemma drain_or_complete : forall fuel queue done, (fsize queue + 2 <= fuel)%nat ->
+  exists done', drain LOr fuel true queue done = Some ([], done') /\ Permutation done' (fids queue ++ done).
+Proof.
+  induction fuel as [|f IH]; intros queue done H; [lia|].
+  destruct queue as [|[id fs] r].
+  - (* nothing queued: one probe, then the loop ends *)
+    destruct f as [|f']; [simpl in H; lia|].
+    exists done. split; [reflexivity | apply Permutation_refl].
+  - assert (Hs : fsize (Task id fs :: r) = S (fsize fs + fsize r)).
+    { unfold fsize at 1. cbn [fold_right]. rewrite tsize_unfold. reflexivity. }
+    destruct (IH (fs ++ r) (id :: done)) as [d' [E P]].
+    { rewrite fsize_app. lia. }
+    exists d'. split.
+    + cbn [drain eval_lcond orb]. exact E.
+    + eapply Permutation_trans; [exact P|].
+      assert (R : fids (Task id fs :: r) ++ done = id :: (fids fs ++ fids r) ++ done).
+      { change (fids (Task id fs :: r)) with (tids (Task id fs) ++ fids r). rewrite tids_unfold. simpl.
+        rewrite <- ?app_assoc. reflexivity. }
+      rewrite R, fids_app. apply Permutation_sym. apply Permutation_middle.
+Qed.
+
+Lemma teardown_or_runs_everything queue :
+  exists done, teardown LOr queue = Some ([], done) /\ Permutation done (fids queue).
+Proof.
+  destruct (drain_or_complete (fsize queue + 2) queue [] (Nat.le_refl _)) as [d [E P]].
+  exists d. split; [exact E|]. rewrite app_nil_r in P. exact P.
+Qed.
+
+(* as seeded: "&&" — with no busy worker the loop is never entered: everything queued is dropped *)
+Lemma teardown_and_drops queue : teardown LAnd queue = Some (queue, []).
+Proof. unfold teardown. replace (fsize queue + 2)%nat with (S (fsize queue + 1)) by lia. reflexivity. Qed.
+
+(* with a worker still running a task that schedules a follow-up: "||" waits for it and drains the follow-up, "&&" leaves *)
+Definition mt_example (c : lcond) := drain_mt c 20 true [(3%nat, Task 1 [Task 2 [Task 3 []]])] [] [].
+Lemma teardown_mt_examples :
+  mt_example LOr = Some ([], [], [3; 2; 1]) /\
+  (exists q i d, mt_example LAnd = Some (q, i, d) /\ i <> []).
+Proof. split; [vm_compute; reflexivity|]. eexists _, _, _. split; [vm_compute; reflexivity | discriminate]. Qed.
